@@ -347,6 +347,35 @@ func (w *World) genInput(r *core.Rand) *C11Run {
 			}
 		}
 	}
+	if r.Intn(12) == 0 {
+		// deep nesting: a rule that pushes a mode, matched 17-60 times in a row,
+		// then (sometimes) as many matches of a rule that pops
+		var push, pop []*specgen.LexRule
+		for _, lr := range rules {
+			for _, a := range lr.Actions {
+				if a.Kind == specgen.APush {
+					push = append(push, lr)
+				}
+				if a.Kind == specgen.APop {
+					pop = append(pop, lr)
+				}
+			}
+		}
+		if len(push) > 0 {
+			depth := 17 + r.Intn(44)
+			pr := push[r.Intn(len(push))]
+			for i := 0; i < depth; i++ {
+				g.gen(pr.Expr, &sb, 0)
+			}
+			if len(pop) > 0 && r.Intn(3) > 0 {
+				qr := pop[r.Intn(len(pop))]
+				for i := 0; i < depth-r.Intn(3); i++ {
+					g.gen(qr.Expr, &sb, 0)
+				}
+			}
+			run.Faults = append(run.Faults, fmt.Sprintf("deepnesting@0+%d", depth))
+		}
+	}
 	in := []byte(sb.String())
 	if r.Intn(6) == 0 {
 		// a lexical error first (the driver resynchronises and resets the
